@@ -40,6 +40,22 @@ def declare(rep):
     rep.rule("R18.3", "reported prefixes are the stored representation of a node holding the reported value")
 
 
+
+def check_new_node(rep, cfg, where, p, T, q, n_new):
+    """an insertion that creates the key's node must store the caller's representation in it — also in a recycled slot"""
+    fresh = [e["node"] for e in p.events if e.kind == "value_write" and e["old"] == "N" and e["new"] == "S"
+             and (e["node"].startswith("pop(") or e["node"].startswith("len("))]
+    for k in fresh:
+        n_new[0] += 1
+        got = (p.final or {}).get(T, {}).get(k, {}).get("prefix")
+        if got != q:
+            rep.bad("R18.2", where, "new-node-stale-prefix", "%s stores the new entry in the fresh slot %s but that node's prefix is %s, not the "
+                    "representation the caller passed (%s): a recycled slot must not keep its previous prefix (inputs: %s)"
+                    % (where, k, got, q, C.inputs_str(p, 10)), config=cfg)
+        else:
+            rep.ok("R18.2", where, "new node holds the caller's prefix", sample={"slot": k, "prefix": got} if k.startswith("pop(") else None)
+
+
 def run_config(ctx, rep, cfg, F):
     # ---- R18.1
     n_sites = 0
@@ -78,12 +94,15 @@ def run_config(ctx, rep, cfg, F):
                             "(their own equality sees host bits)" % (short, tr), config=cfg)
     # ---- R18.2 map-level insert
     n = 0
+    n_new = [0]
     for short in ("PrefixMap::insert", "PrefixSet::insert"):
         q = c01.query_name(F, F.short[short])
         for p in C.complete(ctx.paths(F, short, c01.OPTS)):
             T = c01.table_of(p)
             W = C.Walk(p, T, "0", q)
             cls = c01.classify(W)
+            if cls[0] == "absent":
+                check_new_node(rep, cfg, short, p, T, q.lstrip("*"), n_new)
             if cls[0] in ("present", "valueless"):
                 n += 1
                 pw = [e for e in p.events if e.kind == "prefix_write" and e["node"] == cls[1]]
@@ -110,6 +129,8 @@ def run_config(ctx, rep, cfg, F):
             T = c01.table_of(p)
             W = C.Walk(p, T, "0", "prefix")
             cls = c01.classify(W)
+            if cls[0] == "absent":
+                check_new_node(rep, cfg, where, p, T, "prefix", n_new)
             if cls[0] not in ("present", "valueless"):
                 continue
             n += 1
@@ -162,6 +183,7 @@ def run_config(ctx, rep, cfg, F):
                     kind="unrecognised", config=cfg)
     rep.floor("functions assigning Node::prefix (%s)" % cfg, len(writers), 1)
     rep.floor("existing-node paths checked for the stored prefix (%s)" % cfg, n, 150)
+    rep.floor("new-node insertions checked for the stored prefix (%s)" % cfg, n_new[0], 800)
     # ---- R18.3 observers (rule of C01) and set-operation items
     r2 = engine.Renamed(rep, lambda r: "R18.3" if r.startswith("R01") else r)
     for short in ("PrefixMap::get_key_value", "PrefixSet::get"):
